@@ -182,8 +182,8 @@ def run_property(prop, tier='quick', replay=None, quiet=False):
     if broken:
         print('ANALYSIS-BROKEN property=%s: %s' % (prop, broken))
         status = 2
-    elif violations:
-        status = 1
+    if violations:
+        status = 1      # violations that were established stand, even if a later rule could not be evaluated
 
     # evidence
     wall = time.time() - t0
